@@ -44,6 +44,8 @@ def cases(draw, big=False):
                 # particles that die after the forcing was evaluated and are removed from the state (what a sparse
                 # output record does) before the tracker asks for the velocity of the survivors; 0 = nobody
                 drop=draw(st.sampled_from([0, 0, 0b0101101, 0b1000000000001, 0b11])), zhist=draw(st.booleans()),
+                # the first frame happens to be clean (zero) on land faces, the second one is not
+                land0=draw(st.booleans()),
                 # vertical set-up given explicitly in the configuration (Vinfo) and deliberately different from
                 # what the file records: other transform, other critical depth, stretching from parameters
                 vinfo=draw(st.one_of(st.none(), st.none(), st.fixed_dictionaries(dict(
@@ -188,6 +190,11 @@ def oracle(case) -> core.CaseResult:
     G = roms.make_grid(jm, im, N=N, h=h, hval=case["hval"], mask=mask, dx=800.0, levels=case["levels"],
                        Vtransform=case["vt"], hc=min(3.0, case["hval"]), seed=case["seed"])
     U, V, extra, lin = build_fields(case, G)
+    if case.get("land0") and mask != "none":
+        Mu_, Mv_ = roms.face_masks(G["mask"])
+        U[0] *= Mu_[None]
+        V[0] *= Mv_[None]
+        res.cls("first_frame_zero_on_land")
     stor = {"f8": "f8", "f4": "f4", "i2": ("i2", 1.0e-4 if case["field"] != "linear_z" else 2e-4),
             "i2b": ("i2", 2.5e-4)}
     storage = stor[case["storage"]]
